@@ -150,6 +150,13 @@ func proposedTampers(p *pairfx.Pair, other *types.Block, foreign []*types.Transa
 		fl := fl
 		add(fmt.Sprintf("tamper proposed Flags toggle%d", fl), func(b *types.Block) bool { ph(b).Flags ^= fl; return true })
 	}
+	// every bit of the flags word, also the ones no flag is defined for, and the all-ones word
+	for bit := 10; bit < 32; bit++ {
+		fl := types.BlockFlag(1) << uint(bit)
+		add(fmt.Sprintf("tamper proposed Flags togglebit%d", bit), func(b *types.Block) bool { ph(b).Flags ^= fl; return true })
+	}
+	add("tamper proposed Flags all-ones", func(b *types.Block) bool { ph(b).Flags = ^types.BlockFlag(0); return true })
+	add("tamper proposed Flags undefined-bits-set", func(b *types.Block) bool { ph(b).Flags |= 0xfffffc00; return true })
 	add("tamper proposed IpfsHash flip", func(b *types.Block) bool { ph(b).IpfsHash = flip(ph(b).IpfsHash); return true })
 	add("tamper proposed IpfsHash nil", func(b *types.Block) bool {
 		if ph(b).IpfsHash == nil {
@@ -176,6 +183,27 @@ func proposedTampers(p *pairfx.Pair, other *types.Block, foreign []*types.Transa
 	})
 	add("tamper proposed SeedProof flip", func(b *types.Block) bool { ph(b).SeedProof = flip(ph(b).SeedProof); return true })
 	add("tamper proposed SeedProof nil", func(b *types.Block) bool { ph(b).SeedProof = nil; return true })
+	// pair edits: the seed a failed proof verification yields (the nil hash) together with a proof that does not verify
+	add("tamper2 proposed BlockSeed+SeedProof zero-nil", func(b *types.Block) bool { ph(b).BlockSeed = types.Seed{}; ph(b).SeedProof = nil; return true })
+	add("tamper2 proposed BlockSeed+SeedProof zero-garbage", func(b *types.Block) bool {
+		ph(b).BlockSeed = types.Seed{}
+		ph(b).SeedProof = []byte{1, 2, 3, 4, 5, 6, 7, 8, 9}
+		return true
+	})
+	add("tamper2 proposed BlockSeed+SeedProof zero-truncated", func(b *types.Block) bool {
+		if len(ph(b).SeedProof) < 2 {
+			return false
+		}
+		ph(b).BlockSeed = types.Seed{}
+		ph(b).SeedProof = append([]byte{}, ph(b).SeedProof[:len(ph(b).SeedProof)-1]...)
+		return true
+	})
+	add("tamper2 proposed BlockSeed+SeedProof zero-flip", func(b *types.Block) bool { ph(b).BlockSeed = types.Seed{}; ph(b).SeedProof = flip(ph(b).SeedProof); return true })
+	add("tamper2 proposed BlockSeed+SeedProof zero-zeros", func(b *types.Block) bool {
+		ph(b).BlockSeed = types.Seed{}
+		ph(b).SeedProof = make([]byte, len(ph(b).SeedProof))
+		return true
+	})
 	add("tamper proposed FeePerGas plus1", func(b *types.Block) bool {
 		if ph(b).FeePerGas == nil || ph(b).FeePerGas.Sign() == 0 {
 			return false
@@ -246,6 +274,49 @@ func proposedTampers(p *pairfx.Pair, other *types.Block, foreign []*types.Transa
 			add(fmt.Sprintf("body append-foreign%d %d", k, rec), func(b *types.Block) bool {
 				b.Body.Transactions = append(b.Body.Transactions, ftx)
 				return fin(b)
+			})
+		}
+	}
+	// combinations: two or three single-field edits of derived fields at once (theorem accepted_derived_unique: no combination
+	// of derived-field edits of an accepted header is accepted); chosen by the pair's PRNG, the line names the first field
+	var derivedOps []tamper
+	for _, t := range ts {
+		f := strings.Fields(t.line)
+		if len(f) >= 4 && f[0] == "tamper" && f[1] == "proposed" {
+			switch f[2] {
+			case "ParentHash", "Height", "TxHash", "Root", "IdentityRoot", "Flags", "IpfsHash", "TxBloom", "BlockSeed", "SeedProof", "TxReceiptsCid":
+				derivedOps = append(derivedOps, t)
+			}
+		}
+	}
+	if len(derivedOps) > 3 {
+		for k := 0; k < 4; k++ {
+			n := 2 + p.R.Intn(2)
+			var picked []tamper
+			seen := map[string]bool{}
+			for len(picked) < n {
+				t := derivedOps[p.R.Intn(len(derivedOps))]
+				fld := strings.Fields(t.line)[2]
+				if seen[fld] {
+					continue
+				}
+				seen[fld] = true
+				picked = append(picked, t)
+			}
+			var names []string
+			for _, t := range picked {
+				ff := strings.Fields(t.line)
+				names = append(names, ff[2]+"-"+ff[3])
+			}
+			pk := picked
+			add(fmt.Sprintf("tamper proposed %s combo:%s", strings.Fields(picked[0].line)[2], strings.Join(names, "+")), func(b *types.Block) bool {
+				any := false
+				for _, t := range pk {
+					if t.apply(b) {
+						any = true
+					}
+				}
+				return any
 			})
 		}
 	}
